@@ -157,6 +157,36 @@ theorem validate_accepts_past (pd0 : Nat) (before after : List Act) (v rd : Nat)
   simp only [run, List.foldl_cons] at h8 e2 e4
   omega
 
+/-- … regardless of what happens to the OTHER callers, including cancellation of their contexts: a
+    `ValidateReadTS(rd)` whose own context is never cancelled (`hlive`) and whose `rd` PD had issued before the
+    call can neither be answered with ErrFutureTSRead nor fail with a context error — whichever flight it
+    joined, even one started by a caller that is cancelled while the PD request is pending (the flight runs
+    under `context.Background()` and keeps serving those who joined).  `after` is an arbitrary schedule:
+    `cancel`/`abort` of any other call at any point. -/
+theorem validate_accepts_issued (pd0 : Nat) (before after : List Act) (v rd : Nat)
+    (hidle : ((run (init pd0) before).thr v).pc = .idle)
+    (hpast : rd ≤ (run (init pd0) before).pdLast)
+    (hlive : ∀ a ∈ after, a ≠ Act.cancel v) :
+    ((run (init pd0) (before ++ .startVal v rd :: after)).thr v).pc ≠ .vReject ∧
+    ((run (init pd0) (before ++ .startVal v rd :: after)).thr v).pc ≠ .vCancelled := by
+  refine ⟨validate_accepts_past pd0 before after v rd hidle hpast, ?_⟩
+  rw [run_append]
+  have inv := inv_run_from (inv_run pd0 before) (.startVal v rd :: after)
+  generalize run (init pd0) before = s at *
+  intro hc
+  have h9 := (inv.thr v).t9 (Or.inl hc)
+  have hst : ((step s (.startVal v rd)).thr v).pc ≠ .idle ∧ ((step s (.startVal v rd)).thr v).cancelled = false := by
+    simp [step, step', hidle, St.set]
+  have := cancelled_stable_run (step s (.startVal v rd)) after v hst.1 hst.2 hlive
+  simp only [run, List.foldl_cons] at h9 this
+  simp [this] at h9
+
+/-- a call only fails with a context error if its own context was cancelled -/
+theorem cancelled_only_if_own_ctx (pd0 : Nat) (acts : List Act) (v : Nat)
+    (h : ((run (init pd0) acts).thr v).pc = .vCancelled ∨ ((run (init pd0) acts).thr v).pc = .gCancelled) :
+    ((run (init pd0) acts).thr v).cancelled = true :=
+  ((inv_run pd0 acts).thr v).t9 h
+
 /-- Validation rejects every timestamp beyond what PD has issued: a call that accepted `rd` implies
     `rd ≤` PD's maximum in that state (hence at every later moment, in particular when the call ends). -/
 theorem validate_rejects_future (pd0 : Nat) (acts : List Act) (v : Nat)
@@ -260,6 +290,26 @@ def rejectRun : List Act :=
     .run 2 0, .run 2 0, .run 2 5, .run 5 0, .pdIssue 5 0,
     .run 5 0, .run 5 0, .run 5 0, .run 5 0, .run 5 0, .run 5 0, .run 5 0, .run 2 0]
 example : ((run (init 10) rejectRun).thr 2).pc = .vReject := by decide
+
+
+/-- cancellation: validator 2 (rd = 20) starts flight 3 and is cancelled while the PD request is pending; validator 4
+    (rd = 12, issued before its call) had joined the same flight: 2 returns the context error, the flight keeps
+    running, 4 is accepted -/
+def cancelStarter : List Act :=
+  getAll 0 ++
+  [.startGet 1, .run 1 0, .pdIssue 1 0,                  -- call 1 is assigned 12 (not yet arrived): cached ts stays 11
+   .startVal 2 20, .run 2 0, .run 2 3, .run 3 0]         -- validator 2 starts flight 3, request at PD
+def cancelStarterRest : List Act :=
+  [.run 4 0, .run 4 0,                                   -- cached 11 < 12: join flight 3
+   .cancel 2, .abort 2,                                  -- the starter's context is cancelled: it returns the error
+   .pdIssue 3 0, .run 3 0, .run 3 0, .run 3 0, .run 3 0, .run 3 0, .run 3 0, .run 3 0,   -- flight 3 lives on: 13, deliver
+   .run 4 0]                                             -- 12 ≤ 13: accept
+example : ((run (init 10) cancelStarter).thr 4).pc = .idle ∧ 12 ≤ (run (init 10) cancelStarter).pdLast
+    ∧ (∀ a ∈ cancelStarterRest, a ≠ Act.cancel 4) := by decide
+example : ((run (init 10) (cancelStarter ++ .startVal 4 12 :: cancelStarterRest)).thr 4).pc = .vAccept
+    ∧ ((run (init 10) (cancelStarter ++ .startVal 4 12 :: cancelStarterRest)).thr 2).pc = .vCancelled := by decide
+-- a GetTimestamp call cancelled while its request is at PD
+example : ((run (init 10) [.startGet 0, .run 0 0, .pdIssue 0 0, .cancel 0, .abort 0]).thr 0).pc = .gCancelled := by decide
 
 -- interval_bounds: a recovering step inside the bounds
 example : intervalOk 2000000000 600000000 := by unfold intervalOk; decide
